@@ -7,7 +7,7 @@ CONSTANTS
   OtherInit <- RepSeqsC
   ILArgs <- RepSeqsC
   LimbReps <- RepLimbs
-  Classes <- BinaryNav
+  Classes <- BinaryNavA
   EmitOps <- PairOps
 CONSTRAINT SizeBound
 ACTION_CONSTRAINT Emit
